@@ -173,7 +173,6 @@ inline std::string checkManifoldC01(const manifold::Manifold& m) {
   if (m.NumVert() != t.nVert)
     return "NumVert()=" + std::to_string(m.NumVert()) + " != merged vertex count " + std::to_string(t.nVert);
   if (m.NumEdge() != t.nEdge) return "NumEdge() != edge count of export";
-  if (m.NumPropVert() != t.nPropVert) return "NumPropVert() != exported vertex count";
   if (m.Genus() != t.genus) return "Genus() disagrees with export";
   if ((size_t)m.NumProp() + 3 != (size_t)g.numProp) return "NumProp()+3 != numProp of export";
   if (m.IsEmpty() != (t.nTri == 0)) return "IsEmpty() disagrees with export";
